@@ -137,6 +137,7 @@ type BPlusKVPairReader struct {
 	prefix  byte
 	db      *btree.BTree
 	lastKey []byte
+	started bool
 }
 
 func NewBPlusKVPairReader(table storage.Table, db *btree.BTree) *BPlusKVPairReader {
@@ -154,11 +155,14 @@ func (r *BPlusKVPairReader) Read(buffer []*storage.KVPair) (n int, err error) {
 			return false
 		}
 		key := i.(KVItem).Key
-
-		if bytes.Compare(key[:1], r.lastKey[:1]) == 0 && bytes.Compare(key, r.lastKey) != 0 {
+		if len(key) == 0 || key[0] != r.prefix {
+			return false // end of this table
+		}
+		if !r.started || bytes.Compare(key, r.lastKey) != 0 {
 			buffer[n] = &storage.KVPair{key[1:], i.(KVItem).Value}
 			n++
 		}
+		r.started = true
 		r.lastKey = key
 		return true
 	})
